@@ -1,5 +1,6 @@
 import S3V.Thm.XmlWf
 import S3V.Thm.XmlEscape
+import S3V.Thm.XmlUtf8
 /-!
 Round trip of the generic XML codec: `decode s (encode s v ++ stop …) = ok (v, stop …)` for every well-formed schema and
 every value of it in normal form, by mutual structural induction on the schema.
@@ -15,10 +16,9 @@ mutual
   * a list member written flattened is not the empty list (`Some([])` and `[]` write nothing at all, which reads
     back as `None` / `MissingField`);
   * a member is `absent` only if it is optional.
-  Strings are Rust `String`s, i.e. valid UTF-8 (stated on the escaped form the decoder checks; escaping replaces
-  ASCII bytes by ASCII bytes). Integers are in range. A timestamp is its own canonical rendering. -/
+  Strings are Rust `String`s, i.e. valid UTF-8. Integers are in range. A timestamp is its own canonical rendering. -/
   def Fits (X : Ext) : Sch → Val → Prop
-    | .str, .str b | .enm, .str b => utf8Valid (escape b) = true
+    | .str, .str b | .enm, .str b => utf8Valid b = true
     | .i32, .int i => i32Min ≤ i ∧ i ≤ i32Max
     | .i64, .int i => i64Min ≤ i ∧ i ≤ i64Max
     | .bool, .bool _ => True
@@ -46,7 +46,7 @@ end
 theorem fits_struct (X : Ext) (fs : Flds) (vs : List FVal) : Fits X (.struct fs) (.struct vs) = FitsFields X fs vs := by
   simp only [Fits]
 
-theorem fits_str (X : Ext) (b : Bytes) : Fits X .str (.str b) = (utf8Valid (escape b) = true) := by simp only [Fits]
+theorem fits_str (X : Ext) (b : Bytes) : Fits X .str (.str b) = (utf8Valid b = true) := by simp only [Fits]
 
 theorem fitsFields_nil (X : Ext) : FitsFields X .nil [] = True := by simp only [FitsFields]
 
@@ -334,11 +334,11 @@ mutual
     | .str, .str b, _, hfit, n, rest => by
       simp only [Fits] at hfit
       simp only [encode]
-      exact decode_scalar_text X .str _ _ n rest rfl (by simp [decodeScalarText, decodeStr_escape hfit, Except.map])
+      exact decode_scalar_text X .str _ _ n rest rfl (by simp [decodeScalarText, decodeStr_escape (utf8Valid_escape hfit), Except.map])
     | .enm, .str b, _, hfit, n, rest => by
       simp only [Fits] at hfit
       simp only [encode]
-      exact decode_scalar_text X .enm _ _ n rest rfl (by simp [decodeScalarText, decodeStr_escape hfit, Except.map])
+      exact decode_scalar_text X .enm _ _ n rest rfl (by simp [decodeScalarText, decodeStr_escape (utf8Valid_escape hfit), Except.map])
     | .i32, .int i, _, hfit, n, rest => by
       simp only [Fits] at hfit
       simp only [encode]
